@@ -230,14 +230,22 @@ def run_real(case, loopkind="main"):
     if loopkind == "glib":
         sys.path.insert(0, os.path.join(os.path.dirname(os.path.abspath(__file__)), "fakegi"))
         from gi.repository import GLib
-        GLib.reset(); GLib.on_idle = deliver_hook
+        # the same reader schedule as on MainLoop (where a typed line is handed in when the loop blocks on an empty queue): on GLib a line is handed in when a
+        # blocking iteration finds nothing ready, or when the polling loop of a *waiting* processing call does - not inside a single non-blocking iteration of
+        # process_signals() without return_after, which MainLoop's counterpart never waits in
+        polling = [False]
+        GLib.reset(); GLib.on_idle = lambda may_block=True: (may_block or polling[0]) and deliver_hook()
         from simpleline.event_loop.glib_event_loop import GLibEventLoop
         class BudgetLoop(GLibEventLoop):
             calls = 0
             def process_signals(self, return_after=None):
                 BudgetLoop.calls += 1
                 if BudgetLoop.calls > 20000: raise GLib.Blocked()
-                return super().process_signals(return_after)
+                old = polling[0]; polling[0] = return_after is not None
+                try:
+                    return super().process_signals(return_after)
+                finally:
+                    polling[0] = old
         App.initialize(event_loop=BudgetLoop())
     else:
         class BudgetMainLoop(MainLoop):
